@@ -1,14 +1,33 @@
 """Shared pipeline of the `matrix` family (C12 + C14): one MC_Matrix run, one `vh matrix` pass, one Trace_Matrix run.
 Both properties are judged from the same recorded log (cached per harness binary / spec / tier / seed)."""
-import json, os, shutil
+import hashlib, json, os, shutil
 import vlib
 
 FAM = "matrix"
 
 
-def produce(c, binhash):
+def source_hash():
+    """Key of the shared log: content hash of the Go sources that make up the harness binary (comdex app/, x/, types/, go.mod
+    and the harness itself). The binary's own hash is not stable across the two property runs: the Go toolchain stamps the
+    git 'modified' flag of the enclosing work tree into it, and writing evidence/<id>.json flips that flag."""
+    h = hashlib.sha256()
+    roots = [os.path.join(vlib.REPO, d) for d in ("app", "x", "types")] + [os.path.join(vlib.VERIF, "harness", d) for d in ("sim", "cmd", "fam/matrix")]
+    for root in roots:
+        for dp, dn, fn in sorted(os.walk(root)):
+            dn.sort()
+            for f in sorted(fn):
+                if f.endswith(".go") and not f.endswith("_test.go"):
+                    p = os.path.join(dp, f)
+                    h.update(os.path.relpath(p, root).encode())
+                    h.update(vlib.sha_file(p).encode())
+    h.update(vlib.sha_file(os.path.join(vlib.REPO, "go.mod")).encode())
+    return h.hexdigest()[:24]
+
+
+def produce(c, binhash=None):
+    binhash = source_hash()
     quick = c.tier == "quick"
-    states, steps = (8, 16) if quick else (150, 40)
+    states, steps = (8, 16) if quick else (300, 40)
 
     def producer(d):
         wd = os.path.join(d, "wd")
